@@ -19,11 +19,11 @@ type HeldLock struct {
 
 // LockEdge: task Task acquired To at ToSite while holding From (acquired at FromSite).
 type LockEdge struct {
-	From, To          any
-	FromSite, ToSite  string
+	From, To           any
+	FromSite, ToSite   string
 	FromWrite, ToWrite bool
-	Task              int
-	Gates             []any
+	Task               int
+	Gates              []any
 }
 
 // LockCycle is a candidate: two tasks took two locks in opposite orders.
@@ -120,6 +120,16 @@ func (s *Sched) LockCycles() []LockCycle {
 // LockIntent reports, for a parked task about to acquire a lock, the site of the acquisition
 // and the sites at which it acquired the locks it holds.
 //
+// LockSite: the site of the lock operation t is parked at (whatever it holds).
+//
+//go:norace
+func (s *Sched) LockSite(t *Task) (string, bool) {
+	if t.state != tsParked || (t.op != opLock && t.op != opRLock) {
+		return "", false
+	}
+	return t.opLoc, true
+}
+
 //go:norace
 func (s *Sched) LockIntent(t *Task) (site string, held []string, ok bool) {
 	if t.state != tsParked || (t.op != opLock && t.op != opRLock) || len(t.Held) == 0 {
